@@ -302,6 +302,12 @@ func c01Stress(c *mon.Ctx, r *mon.Rand) {
 				whist[w][k] = sc.Histogram(fmt.Sprintf("h%d ", k), tally.ValueBuckets{})
 				continue
 			}
+			if k%4 == 2 {
+				// a specification that lists the largest finite value: samples above
+				// every bound (+Inf) land in the last, zero-width bucket
+				whist[w][k] = sc.Histogram(fmt.Sprintf("h%d", k), tally.ValueBuckets{0, math.MaxFloat64})
+				continue
+			}
 			whist[w][k] = sc.Histogram(fmt.Sprintf("h%d", k), tally.ValueBuckets{})
 		}
 	}
@@ -340,7 +346,11 @@ func c01Stress(c *mon.Ctx, r *mon.Rand) {
 				}
 				if i%3 == 0 {
 					k := wr.Intn(nHist)
-					whist[w][k].RecordValue(1)
+					if k%4 == 2 && whsum[w][k]%2 == 0 {
+						whist[w][k].RecordValue(math.Inf(1))
+					} else {
+						whist[w][k].RecordValue(1)
+					}
 					whsum[w][k]++
 				}
 				if len(mine) == 0 {
@@ -454,6 +464,12 @@ func c01Stress(c *mon.Ctx, r *mon.Rand) {
 					hname += "_"
 				}
 				a := agg[mon.BucketKeyV(hname, nil, -math.MaxFloat64, math.MaxFloat64)]
+				if k%4 == 2 {
+					a = mon.Agg{}
+					for _, p := range mon.RefPairsV([]float64{0, math.MaxFloat64}) {
+						a.Sum += agg[mon.BucketKeyV(hname, nil, p.Lo, p.Hi)].Sum
+					}
+				}
 				if a.Sum != whsum[w][k] {
 					c.Violation("conservation-histogram", map[string]interface{}{"why": fmt.Sprintf("histogram hs%d.h%d: %d samples delivered, %d recorded before Close", w, k, a.Sum, whsum[w][k]), "case": desc})
 				}
